@@ -446,5 +446,10 @@ def run(ctx):
     check_single_writer(ctx, rf, ctx.extract(unit_of('llp')), ctx.extract('parsec/scheduling.c'))
     u = ctx.extract('parsec/hbbuffer.c')
     check_hbbuffer(ctx, rd, u)
+    # (g) spq: schedule and select share the per-distance task lists; all their accesses must hold a common lock
+    from rules import C09
+    rg = ctx.rule('R08.g', 'spq: every access to a per-distance task list holds a common lock; locks released on all exits', floor=4)
+    us = ctx.extract('parsec/mca/sched/spq/sched_spq_module.c')
+    C09.spq_lock_consistency(ctx, rg, us.func('sched_spq_schedule'), us.func('sched_spq_select'))
     u = ctx.extract('parsec/scheduling.c')
     check_schedule_vp(ctx, re_, u)
